@@ -128,6 +128,55 @@ theorem c12_rt_flip_from (flex0 : Bool) (init : UInt16) (pid : Nat) (hp : pid < 
         p calls) = true :=
   Proofs.VP9.rtFlip_from init calls flex0 pid p hp (fun fc _ _ => c12_hdrFacts fc.2)
 
+/-- the whole-history predicate implies the per-frame one: a frame that is right with the running
+    picture id is right with the id its own first packet carries -/
+theorem c12_rtLocal_of_rtFlipFrom (pid : Nat) (calls : List (Bool × C12.Call)) (o : List (List C12.FragObs)) :
+    C12.rtFlipFrom pid calls o = true → C12.rtLocal calls o = true := by
+  induction calls generalizing pid o with
+  | nil => cases o <;> simp [C12.rtFlipFrom, C12.rtLocal]
+  | cons fc cs ih =>
+    obtain ⟨flex, c⟩ := fc
+    cases o with
+    | nil => simp [C12.rtFlipFrom]
+    | cons o os =>
+      intro h
+      simp only [C12.rtFlipFrom, Bool.and_eq_true, Bool.or_eq_true] at h
+      simp only [C12.rtLocal, Bool.and_eq_true]
+      refine ⟨?_, ih _ _ h.2⟩
+      unfold C12.frameLocal
+      rcases h.1 with hp | hf
+      · simp [hp]
+      · cases o with
+        | nil => simp [C12.frameOk] at hf
+        | cons f fs =>
+          have hpid : f.md.PictureID.toNat = pid := by
+            simp only [C12.frameOk, List.all_cons, Bool.and_eq_true, C12.fragOk, beq_iff_eq] at hf
+            exact hf.1.1.1.2.1.1.1.1.2
+          simp only [hpid, hf, Bool.or_true]
+
+/-- **C12, per frame, every history**: whatever calls a payloader has seen — refused ones (MTU too
+    small for the descriptor, empty or malformed frames) included, `FlexibleMode` set by hand in
+    between — every call made with a well-formed frame and a sufficient MTU yields packets that
+    reproduce the frame, carry B/E on the first/last packet only, one 15-bit picture id, F = the
+    mode of the call, P = the frame type, and on a non-flexible key frame the scalability structure
+    with the coded width and height. -/
+theorem c12_rt_local (init : UInt16) (calls : List (Bool × C12.Call)) :
+    C12.rtLocal calls (C12.obsRtFlip init calls) = true :=
+  c12_rtLocal_of_rtFlipFrom _ _ _ (c12_rt_flip init calls)
+
+/-- non-vacuity: a key frame, the next key frame of another size REFUSED (MTU 8 < 12), then accepted:
+    the third call is proper and its first packet carries 1280×720 -/
+example :
+    let k1 : Hdr := .key 0 true false { space := 1, range := false } 640 480
+    let k2 : Hdr := .key 0 true false { space := 1, range := false } 1280 720
+    let calls : List (Bool × C12.Call) :=
+      [(false, { mtu := 30, frame := some (k1.encode [] ++ [1]), desc := some k1 }),
+       (false, { mtu := 8, frame := some (k2.encode [] ++ [2]), desc := some k2 }),
+       (false, { mtu := 30, frame := some (k2.encode [] ++ [2]), desc := some k2 })]
+    calls.map (fun fc => C12.proper fc.1 fc.2) = [true, false, true] ∧
+    ((C12.obsRtFlip 0 calls).getD 2 []).head?.map (fun f => (f.md.Width, f.md.Height)) = some ([1280], [720]) := by
+  decide +kernel
+
 /-- `c12_rt` is the instance of `c12_rt_flip` in which the flag never changes: predicate and model
     observation of a per-history mode are those of the per-call form on the constant flag list -/
 theorem c12_rt_is_flip_const (flex : Bool) (init : UInt16) (calls : List C12.Call) (o : List (List C12.FragObs)) :
